@@ -8,6 +8,7 @@ import (
 	"fmt"
 	"io"
 
+	"github.com/anjor/carlet"
 	"github.com/filecoin-project/go-leb128"
 	"github.com/ipfs/go-cid"
 	"github.com/ipld/go-car"
@@ -214,7 +215,7 @@ func VerifC16Split() {
 	hdrBytes := new(bytes.Buffer)
 	verifAssert(car.WriteHeader(hdr, hdrBytes) == nil, "C16.split: placeholder header")
 	var got []byte
-	sizesOK := true
+	sizesOK, csvOK := true, true
 	verifAssert(len(c16CSVRows) == len(m.CarPieces)+1, "C16.split: one CSV row per piece expected")
 	for i, p := range m.CarPieces {
 		file := verifMemFileBytes(p.Name)
@@ -232,12 +233,28 @@ func VerifC16Split() {
 			sizesOK = false
 		}
 		if len(c16CSVRows) == len(m.CarPieces)+1 && c16CSVRows[i+1][4] != fmt.Sprint(len(file)) {
-			sizesOK = false
+			csvOK = false
 		}
 	}
 	verifAssert(bytes.Equal(got, want), "C16.split: piece contents are not the original objects, byte-identical and in order")
 	// known finding: the subset (and epoch) node appended to every piece is not counted
 	verifKnownFinding("C16-split-size-omits-subset-node", true)
-	verifAssert(sizesOK, "C16.split: sizes recorded in the metadata (HeaderSize+ContentSize, CSV file size) differ from the files written")
+	verifAssert(csvOK, "C16.split: 'file size' in the CSV differs from the file written")
+	if verifParam("readback", 1) == 1 {
+		// read the pieces back through the real split-CAR reader over the local files just written
+		scr, err := splitcarfetcher.NewSplitCarReader(m, func(cf carlet.CarFile) (splitcarfetcher.ReaderAtCloserSize, error) {
+			return splitcarfetcher.NewFileSplitCarReader(cf.Name)
+		})
+		verifAssert(err == nil, "C16.split: NewSplitCarReader rejects the local pieces just written (HeaderSize+ContentSize differs from the file size)")
+		if err == nil {
+			stream := append(append([]byte{}, carBytes[:origHeaderLen]...), want...)
+			p := make([]byte, len(stream)+1)
+			n, rerr := scr.ReadAt(p, 0)
+			verifAssert(n == len(stream) && rerr == io.EOF, "C16.split: reading the split CAR back ends at the wrong offset")
+			verifAssert(n == len(stream) && bytes.Equal(p[:n], stream), "C16.split: the split CAR does not read back as original header followed by the original objects")
+		}
+	} else {
+		verifAssert(sizesOK, "C16.split: HeaderSize+ContentSize in the metadata differs from the size of the piece file")
+	}
 	verifReach("end")
 }
